@@ -43,7 +43,7 @@ from . import c09 as _c9
 
 ID = "C11"
 TIERS = {
-    "quick": {"shards": 8, "budget_s": 30},
+    "quick": {"shards": 8, "budget_s": 20},
     "thorough": {"shards": 16, "budget_s": 360},
 }
 MIN_EVENTS = {"quick": 200000, "thorough": 5000000}
@@ -239,33 +239,37 @@ def _make_to_year_segment(orig):
 # ------------------------------------------------------------------------------
 
 
+def _parse_call(op, call, expect, args, kwargs):
+    """expect(args, kwargs) -> ("ok", (f, k), key) | ("outside", reason); the result of call() must be that period"""
+    c = rt.ctx()
+    if c is None:
+        return call()
+    try:
+        verdict = expect(args, kwargs)
+    except Exception as exc:
+        verdict = ("outside", f"monitor-error:{type(exc).__name__}")
+    inside = verdict[0] == "ok"
+    try:
+        result = call()
+    except Exception as exc:
+        _raised(c, op, exc, verdict[1][0] if inside else "?", inside, f"{args[-3:]!r} {kwargs!r}")
+        raise
+    if inside:
+        try:
+            want, key = verdict[1], verdict[2]
+            c.event("parse", op, key=f"{want[0]}|{op}|{key}")
+            if not _same(result, want):
+                c.violation(f"{op}:wrong-period:{want[0]}", f"{op}{args[-3:]!r} {kwargs!r} -> {_abs(result)} instead of {want}")
+        except Exception as exc:
+            c.inconc(f"{op}:monitor-error:{type(exc).__name__}")
+    else:
+        c.inconc(f"{op}:{verdict[1]}")
+    return result
+
+
 def _parse_wrapper(op, orig, expect):
-    """expect(args, kwargs) -> ("ok", (f, k), key) | ("outside", reason); result must be that period"""
     def wrapper(*args, **kwargs):
-        c = rt.ctx()
-        if c is None:
-            return orig(*args, **kwargs)
-        try:
-            verdict = expect(args, kwargs)
-        except Exception as exc:
-            verdict = ("outside", f"monitor-error:{type(exc).__name__}")
-        inside = verdict[0] == "ok"
-        try:
-            result = orig(*args, **kwargs)
-        except Exception as exc:
-            _raised(c, op, exc, verdict[1][0] if inside else "?", inside, f"{args[-3:]!r} {kwargs!r}")
-            raise
-        if inside:
-            try:
-                want, key = verdict[1], verdict[2]
-                c.event("parse", op, key=f"{want[0]}|{op}|{key}")
-                if not _same(result, want):
-                    c.violation(f"{op}:wrong-period:{want[0]}", f"{op}{args[-3:]!r} {kwargs!r} -> {_abs(result)} instead of {want}")
-            except Exception as exc:
-                c.inconc(f"{op}:monitor-error:{type(exc).__name__}")
-        else:
-            c.inconc(f"{op}:{verdict[1]}")
-        return result
+        return _parse_call(op, lambda: orig(*args, **kwargs), expect, args, kwargs)
     return wrapper
 
 
@@ -289,7 +293,7 @@ def _expect_day(f, y, m, d, how):
         day = _dt.date(int(y), int(m), int(d))
     except Exception:
         return ("outside", "not-a-calendar-date")
-    pos = "first" if day.day == 1 else ("last" if (day + cal.ONE_DAY).day == 1 or day == _dt.date.max else ("29feb" if (day.month, day.day) == (2, 29) else "inner"))
+    pos = "first" if day.day == 1 else ("last" if day == _dt.date.max or (day + cal.ONE_DAY).day == 1 else ("29feb" if (day.month, day.day) == (2, 29) else "inner"))
     k = cal.index_of_day(f, day)
     return ("ok", (f, k), f"{how}|{pos}|{cal.position_class(f, k)}")
 
@@ -440,7 +444,7 @@ def _wrap_class_parser(owner, name, op, expect):
         return
     def make(orig):
         def wrapper(klass, *args, **kwargs):
-            return _parse_wrapper(op, lambda *a, **k: orig(klass, *a, **k), lambda a, k: expect(_klass_letter(klass), a, k))(*args, **kwargs)
+            return _parse_call(op, lambda: orig(klass, *args, **kwargs), lambda a, k: expect(_klass_letter(klass), a, k), args, kwargs)
         return wrapper
     rt.wrap_attr(owner, name, make)
 
@@ -504,4 +508,261 @@ def install():
         irispie.refrequent = D.refrequent
 
 
-# WORKLOAD-PLACEHOLDER
+# ------------------------------------------------------------------------------
+# Driver
+# ------------------------------------------------------------------------------
+
+
+def _law(c, name, ok, key, msg, f="", nontrivial=True):
+    c.event("law", name, key=f"law|{name}|{key}", nontrivial=nontrivial)
+    if not ok:
+        c.violation(f"law:{name}:{f}" if f else f"law:{name}", msg() if callable(msg) else msg)
+
+
+def _try(c, op, fn, f, inside=True):
+    try:
+        return True, fn()
+    except Exception as exc:
+        if not getattr(exc, "_iv_seen", False):
+            _raised(c, f"unmonitored:{op}", exc, f, inside, op)
+        return False, None
+
+
+def _run_period(c, case):
+    import irispie
+    from irispie import dates as D
+    f, y, s = case["f"], case["y"], case["s"]
+    every_day = case.get("every_day", True)
+    with c.running(case):
+        ok, p = _try(c, "construct", lambda: dom.make_period(f, y, s), f)
+        if not ok:
+            return
+        k = cal.index(f, y, s)
+        a = (f, k)
+        if _abs(p) != a:
+            c.inconc("constructor-disagrees-with-oracle(decided-by-C09)")
+            return
+        pk = _pkey(f, k)
+        cls = _S["classes"][f]
+        F = dom.frequency_of(f)
+        P = D.Period
+        is_ = lambda r: _same(r, a)
+
+        # ---- SDMX: print, parse with given / auto-detected frequency
+        ok, sd = _try(c, "to_sdmx_string", lambda: p.to_sdmx_string(), f)
+        ok2, st = _try(c, "str", lambda: str(p), f)
+        if ok and ok2:
+            _law(c, "str==sdmx", st == sd, f"{f}", lambda: f"{a}: str {st!r} vs sdmx {sd!r}", f)
+        if ok:
+            for name, fn in (
+                ("sdmx:Period.from_sdmx_string(auto)", lambda: P.from_sdmx_string(sd)),
+                ("sdmx:Period.from_sdmx_string(frequency)", lambda: P.from_sdmx_string(sd, frequency=F)),
+                ("sdmx:Class.from_sdmx_string", lambda: cls.from_sdmx_string(sd)),
+            ):
+                okr, r = _try(c, name, fn, f)
+                if okr:
+                    _law(c, name, is_(r), f"{f}|{pk}", lambda: f"{a} printed {sd!r} parsed back as {_abs(r)}", f)
+            okr, fr = _try(c, "Frequency.from_sdmx_string", lambda: D.Frequency.from_sdmx_string(sd), f)
+            if okr:
+                _law(c, "sdmx:frequency-detected", fr == F, f"{f}|{pk}", lambda: f"{sd!r} detected as {fr!r}", f)
+            ok3, sd2 = _try(c, "to_sdmx_string", lambda: (p + 1).to_sdmx_string(), f, cal.in_calendar(f, k + 1))
+            if ok3 and cal.in_calendar(f, k + 1):
+                for name, fn in (("sdmx:periods_from_sdmx_strings(auto)", lambda: D.periods_from_sdmx_strings([sd, sd2])),
+                                 ("sdmx:periods_from_sdmx_strings(frequency)", lambda: D.periods_from_sdmx_strings((sd, sd2), frequency=F))):
+                    okr, r = _try(c, name, fn, f)
+                    if okr:
+                        _law(c, name, [_abs(x) for x in r] == [a, (f, k + 1)], f"{f}|{pk}", lambda: f"{[sd, sd2]} -> {[_abs(x) for x in r]}", f)
+
+        # ---- repr evaluated back in the irispie namespace
+        ok, rp = _try(c, "repr", lambda: repr(p), f)
+        if ok:
+            okr, r = _try(c, "eval(repr)", lambda: eval(rp, dict(vars(irispie))), f)
+            if okr:
+                _law(c, "repr:eval(repr(p))", is_(r), f"{f}|{pk}", lambda: f"{a} repr {rp!r} evaluates to {_abs(r)}", f)
+        if f == "I":
+            return
+
+        # ---- (year, segment)
+        ok, ys = _try(c, "to_year_segment", lambda: p.to_year_segment(), f)
+        if ok:
+            for name, fn in (("ys:Period.from_year_segment", lambda: P.from_year_segment(F, *ys)), ("ys:Class.from_year_segment", lambda: cls.from_year_segment(*ys))):
+                okr, r = _try(c, name, fn, f)
+                if okr:
+                    _law(c, name, is_(r), f"{f}|{pk}", lambda: f"{a} -> {ys} -> {_abs(r)}", f)
+
+        # ---- ISO string, ymd, python date at the three positions
+        for pos in cal.POSITIONS:
+            ok, iso = _try(c, "to_iso_string", lambda: p.to_iso_string(position=pos), f)
+            if ok:
+                for name, fn in (("iso:Period.from_iso_string", lambda: P.from_iso_string(iso, F)), ("iso:Class.from_iso_string", lambda: cls.from_iso_string(iso)),
+                                 ("iso:periods_from_iso_strings", lambda: D.periods_from_iso_strings([iso], frequency=F)[0])):
+                    okr, r = _try(c, name, fn, f)
+                    if okr:
+                        _law(c, name, is_(r), f"{f}|{pos}|{pk}", lambda: f"{a} {pos} {iso!r} -> {_abs(r)}", f)
+            ok, ymd = _try(c, "to_ymd", lambda: p.to_ymd(position=pos), f)
+            if ok:
+                for name, fn in (("ymd:Period.from_ymd", lambda: P.from_ymd(F, *ymd)), ("ymd:Class.from_ymd", lambda: cls.from_ymd(*ymd))):
+                    okr, r = _try(c, name, fn, f)
+                    if okr:
+                        _law(c, name, is_(r), f"{f}|{pos}|{pk}", lambda: f"{a} {pos} {ymd} -> {_abs(r)}", f)
+            ok, pd = _try(c, "to_python_date", lambda: p.to_python_date(position=pos), f)
+            if ok:
+                for name, fn in (("pydate:Period.from_python_date", lambda: P.from_python_date(pd, frequency=F)),
+                                 ("pydate:periods_from_python_dates", lambda: D.periods_from_python_dates([pd], frequency=F)[0])):
+                    okr, r = _try(c, name, fn, f)
+                    if okr:
+                        _law(c, name, is_(r), f"{f}|{pos}|{pk}", lambda: f"{a} {pos} {pd} -> {_abs(r)}", f)
+        _try(c, "to_ymd", lambda: p.to_ymd(), f)
+        _try(c, "to_iso_string", lambda: p.to_iso_string(), f)
+        _try(c, "to_python_date", lambda: p.to_python_date(), f)
+
+        # ---- from_ymd of EVERY day of the period
+        if f != "D" and every_day:
+            bad = None
+            n = 0
+            from_ymd = cls.from_ymd
+            for d in cal.days_of(f, k):
+                okr, r = _try(c, "Class.from_ymd", lambda: from_ymd(d.year, d.month, d.day), f)
+                n += 1
+                if okr and not is_(r) and bad is None:
+                    bad = (d, _abs(r))
+            _law(c, "ymd:every-day-of-p-gives-p", bad is None, f"{f}|{pk}", lambda: f"{a}: from_ymd{bad[0].timetuple()[:3]} = {bad[1]}", f)
+            c.extra["from_ymd_days"] = c.extra.get("from_ymd_days", 0) + n
+
+        # ---- refrequent: all calendar targets x positions; containment, monotone, there-and-back
+        nxt = p + 1 if cal.in_calendar(f, k + 1) else None
+        for g in cal.CALENDAR:
+            G = dom.frequency_of(g)
+            for pos in cal.POSITIONS:
+                ok, r = _try(c, "refrequent", lambda: p.refrequent(G, position=pos), f"{f}->{g}")
+                if not ok:
+                    continue
+                key = f"{f}|{g}|{pos}|{pk}"
+                nt = g != f
+                ra = _abs(r)
+                ok2, r2 = _try(c, "refrequent-function", lambda: D.refrequent(p, G, position=pos), f"{f}->{g}")
+                if ok2:
+                    _law(c, "refrequent:function==method", _abs(r2) == ra, key, lambda: f"{a}->{g} {pos}: {_abs(r2)} vs {ra}", "", nt)
+                if g == "D":
+                    ok2, r2 = _try(c, "to_daily", lambda: p.to_daily(position=pos), f"{f}->{g}")
+                    if ok2:
+                        _law(c, "refrequent:to_daily==refrequent(DAILY)", _abs(r2) == ra, key, lambda: f"{a} {pos}: {_abs(r2)} vs {ra}", "", nt)
+                ok2, ymd = _try(c, "to_ymd", lambda: p.to_ymd(position=pos), f)
+                if ok2 and ra is not None and ra[0] == g:
+                    day = _dt.date(*ymd)
+                    _law(c, "refrequent:contains-chosen-position", cal.contains(g, ra[1], day), key, lambda: f"{a}->{g} {pos}: ({g},{ra[1]}) does not contain {day}", "", nt)
+                if nxt is not None and ra is not None:
+                    ok2, r2 = _try(c, "refrequent", lambda: nxt.refrequent(G, position=pos), f"{f}->{g}")
+                    if ok2 and _abs(r2) is not None:
+                        _law(c, "refrequent:monotone", _abs(r2)[0] == ra[0] and _abs(r2)[1] >= ra[1], key, lambda: f"{a}->{ra}, next -> {_abs(r2)}", "", nt)
+                if (cal.finer(g, f) or g == f) and ra is not None:
+                    for back_pos in cal.POSITIONS:
+                        ok2, r2 = _try(c, "refrequent", lambda: r.refrequent(F, position=back_pos), f"{g}->{f}")
+                        if ok2:
+                            _law(c, "refrequent:coarse->fine->coarse==id", is_(r2), f"{key}|{back_pos}", lambda: f"{a} -{pos}-> {ra} -{back_pos}-> {_abs(r2)}", "", nt)
+            _try(c, "refrequent", lambda: p.refrequent(G), f"{f}->{g}")
+
+
+def _run_csv(c, case):
+    """series of one frequency -> CSV file -> Databox: the dates come back (frequency mark row; SDMX strings in the date column)"""
+    import irispie
+    f, k, n = case["f"], case["k"], case["n"]
+    with c.running(case):
+        start = _c9._period_from_ordinal(f, k)
+        F = dom.frequency_of(f)
+        db = irispie.Databox()
+        db["x"] = irispie.Series(start=start, values=np.arange(1.0, n + 1))
+        db["y"] = irispie.Series(start=start + 1, values=np.arange(1.0, n + 2))
+        with tempfile.TemporaryDirectory(prefix="irisverif-c11-") as tmp:
+            path = os.path.join(tmp, "data.csv")
+            with rt.quiet():
+                ok, _ = _try(c, "to_csv", lambda: db.to_csv(path, frequency_span={F: ...}), f)
+                if not ok:
+                    return
+                ok, back = _try(c, "from_csv", lambda: irispie.Databox.from_csv(path), f)
+            if not ok:
+                return
+        try:
+            got = (_abs(back["x"].start), _abs(back["x"].end), _abs(back["y"].start), _abs(back["y"].end))
+        except Exception as exc:
+            c.inconc(f"csv:harness:{type(exc).__name__}")
+            return
+        want = ((f, k), (f, k + n - 1), (f, k + 1), (f, k + n + 1))
+        _law(c, "csv:dates-come-back", got == want, f"{f}|{_pkey(f, k)}", lambda: f"{want} -> {got}", f)
+        vals = back["x"].get_data().ravel().tolist()
+        _law(c, "csv:values-at-the-same-periods", vals[:n] == list(np.arange(1.0, n + 1)), f"{f}", lambda: f"{vals}", f)
+
+
+DIRECTED = [
+    {"kind": "period", "f": "I", "y": 0, "s": 5},          # "(5)" is printed by ii(5) but its frequency is not detected
+    {"kind": "period", "f": "I", "y": 0, "s": -5},
+    {"kind": "period", "f": "D", "y": 2020, "s": 60},      # daily (year, segment) conversion raises
+    {"kind": "period", "f": "M", "y": 2000, "s": 2},
+    {"kind": "period", "f": "M", "y": 1900, "s": 2},
+    {"kind": "period", "f": "Y", "y": 1, "s": 1},
+    {"kind": "period", "f": "Q", "y": 9999, "s": 4},
+    {"kind": "csv", "f": "Q", "k": cal.index("Q", 2020, 3), "n": 6},
+]
+
+
+def _dispatch(c, case):
+    if case["kind"] == "period":
+        _run_period(c, case)
+    elif case["kind"] == "csv":
+        _run_csv(c, case)
+    else:
+        raise ValueError(case["kind"])
+
+
+def replay(c, case):
+    install()
+    _dispatch(c, case)
+
+
+def shard(c):
+    install()
+    rng = c.rng
+    bad = cal.selfcheck()
+    c.extra["oracle_selfcheck_problems"] = len(bad)
+
+    for case in DIRECTED:
+        _dispatch(c, case)
+    if c.shard == 0:
+        c.sample(DIRECTED[0])
+        c.sample(DIRECTED[3])
+
+    # ---- EXHAUSTIVE bounded domain (never cut by the time budget)
+    n_enum = 0
+    for f, y, s in dom.enumerate_domain(c.tier, c.shard, c.nshards):
+        _run_period(c, {"kind": "period", "f": f, "y": y, "s": s})
+        n_enum += 1
+        if n_enum == 40 + 7 * c.shard:
+            c.sample({"kind": "period", "f": f, "y": y, "s": s})
+    c.extra["exhaustive_periods_enumerated"] = n_enum
+    if c.shard == 0:
+        c.extra["exhaustive_periods_in_domain"] = dom.domain_size(c.tier)
+
+    # ---- CSV round trips
+    for i in range(c.scale(12, 150)):
+        f = cal.ALL[(i + c.shard) % 6]
+        k = int(rng.integers(-30, 30)) if f == "I" else cal.index(f, int(rng.integers(1950, 2060)), 1) + int(rng.integers(0, 370))
+        case = {"kind": "csv", "f": f, "k": k, "n": int(rng.integers(1, 40))}
+        try:
+            _run_csv(c, case)
+        except Exception as exc:
+            c.inconc(f"csv:harness:{type(exc).__name__}")
+        if i == 0:
+            c.sample(case)
+
+    # ---- random periods anywhere in the calendar while the budget lasts
+    i = 0
+    while i < c.scale(250, 20000) and not c.out_of_time():
+        f = str(rng.choice(list(cal.CALENDAR)))
+        y = int(rng.integers(1, 10000))
+        s = int(rng.integers(1, cal.n_segments(f, y) + 1))
+        case = {"kind": "period", "f": f, "y": y, "s": s, "every_day": f in ("M", "Q")}
+        _run_period(c, case)
+        if i == 1:
+            c.sample(case)
+        i += 1
+    c.extra["random_periods"] = i
